@@ -38,7 +38,8 @@ def parseH (s : String) : Option (List Nat) :=
 
 def parseOp (w : List String) : Option Op :=
   match w with
-  | ["cast"] => some .cast | ["drain"] => some .drain | ["stop"] => some .stop | ["kill"] => some .kill
+  | ["cast"] => some .cast | ["scast"] => some .cast   -- `scast`: the same cast sent serialized (cluster builds)
+  | ["drain"] => some .drain | ["stop"] => some .stop | ["kill"] => some .kill
   | ["poll", "ok"] => some (.poll true) | ["poll", "err"] => some (.poll false)
   | _ => none
 
